@@ -1,5 +1,6 @@
 import PoxModel.Base.Proto
 import PoxModel.Model.Framing
+import PoxModel.Model.LiveNet
 open Pox Pox.Proto Pox.Framing
 
 def stName : Status → String
@@ -25,8 +26,39 @@ def tableU (t : List Entry) : Unpack Bytes := fun _ buf off =>
     | .none => .none
   | none => .raise
 
+/-! live histories: request {"side":"ctl","n":k,"live":[[i,{"t":"stats","xid","type","more","body":[id…]}|{"t":"up"}|{"t":"close"}|{"t":"other"}]…]}
+→ {"events":[per connection: ["raw",xid,type,more] | ["ev",type,[id…],[xid…]] | ["raised",name] …]} -/
+open Pox.LiveNet in
+def parseLIn (j : J) : Except String LIn := do
+  match ← j.string "t" with
+  | "stats" => pure (.stats ⟨← j.nat "xid", ← j.nat "type", ← j.boolean "more", ← j.nats "body"⟩)
+  | "up" => pure .up
+  | "close" => pure .close
+  | "other" => pure .other
+  | t => .error s!"unknown live input {t}"
+
+open Pox.LiveNet Pox.StatsAgg in
+def jLEv : LEv → J
+  | .raw x t m => J.arr [J.str "raw", J.ofNat x, J.ofNat t, J.bool m]
+  | .out (.event e) => J.arr [J.str "ev", J.ofNat e.type, J.ofNats e.stats, J.ofNats e.xids]
+  | .out (.raised .indexError) => J.arr [J.str "raised", J.str "IndexError"]
+  | .out (.raised .attributeError) => J.arr [J.str "raised", J.str "AttributeError"]
+  | .out .quiet => J.null
+
+open Pox.LiveNet in
+def handleLive (j : J) (steps : List J) : Except String J := do
+  let n ← j.nat "n"
+  let hist ← steps.mapM fun s => do
+    match ← s.asArr with
+    | [i, x] => pure ((← i.asNat, ← parseLIn x) : Nat × LIn)
+    | _ => .error "live step = [connection, input]"
+  if hist.any (fun e => e.1 ≥ n) then .error "live step names a connection that does not exist"
+  let r := runNet liveStep (List.replicate n LConn.init) hist
+  pure (J.mk [("events", J.arr ((List.range n).map fun k => J.arr ((traceOf k r.2).map jLEv)))])
+
 /-- request {"side","chunks":[hex…],"table":[…]} → delivered windows, residual buffer, status, per-chunk counts -/
 def handle (j : J) : Except String J := do
+  if let some l := j.get? "live" then return ← handleLive j (← l.asArr)
   let side ← j.string "side"
   let chunks ← (← j.array "chunks").mapM J.asBytes
   let table ← (← j.array "table").mapM parseEntry
